@@ -4,6 +4,8 @@ package driver
 
 import (
 	"fmt"
+	"go/ast"
+	"go/token"
 	"io"
 	"io/fs"
 	"os"
@@ -119,17 +121,40 @@ func Open(cfg Config, pkgPaths []string) (*Session, error) {
 	prog, _ := ssautil.AllPackages(pkgs, ssa.InstantiateGenerics)
 	prog.Build()
 	s := &Session{cfg: cfg, prog: prog, pkgs: map[string]*ssa.Package{}, overlay: ov}
+	// //go:embed variables: pkg path → var name → file content
 	embed := map[string]map[string][]byte{}
 	packages.Visit(pkgs, nil, func(p *packages.Package) {
-		if len(p.EmbedFiles) > 0 {
-			m := map[string][]byte{}
-			for _, f := range p.EmbedFiles {
-				if b, err := os.ReadFile(f); err == nil {
-					m[filepath.Base(f)] = b
+		if len(p.EmbedFiles) == 0 {
+			return
+		}
+		byBase := map[string]string{}
+		for _, f := range p.EmbedFiles {
+			byBase[filepath.Base(f)] = f
+		}
+		m := map[string][]byte{}
+		for _, f := range p.Syntax {
+			for _, d := range f.Decls {
+				gd, ok := d.(*ast.GenDecl)
+				if !ok || gd.Tok != token.VAR || gd.Doc == nil {
+					continue
+				}
+				for _, c := range gd.Doc.List {
+					if strings.HasPrefix(c.Text, "//go:embed ") {
+						pat := strings.TrimSpace(strings.TrimPrefix(c.Text, "//go:embed "))
+						if file, ok := byBase[pat]; ok {
+							if b, err := os.ReadFile(file); err == nil {
+								for _, sp := range gd.Specs {
+									for _, n := range sp.(*ast.ValueSpec).Names {
+										m[n.Name] = b
+									}
+								}
+							}
+						}
+					}
 				}
 			}
-			embed[p.PkgPath] = m
 		}
+		embed[p.PkgPath] = m
 	})
 	for _, p := range prog.AllPackages() {
 		s.pkgs[p.Pkg.Path()] = p
@@ -226,7 +251,7 @@ type SolverTotals struct {
 	Queries, CacheHits, Sat, Unsat, Unknown, Errors int
 	SolverSec                                       float64
 	Steps                                           int64
-	Decides, FastPath, Forks                        int
+	Decides, FastPath, Forks, EnumQueries           int
 }
 
 func (s *Session) SolverTotals() SolverTotals {
@@ -244,6 +269,7 @@ func (s *Session) SolverTotals() SolverTotals {
 		t.Decides += w.Stats.Decides
 		t.FastPath += w.Stats.FastPath
 		t.Forks += w.Stats.Forks
+		t.EnumQueries += w.Stats.EnumQueries
 	}
 	return t
 }
